@@ -68,6 +68,8 @@ def queries(tier):
             for ad, m in sgrid:
                 qs.append(dec_query("siv", alg, ad, m, be))
             igrid = [(0, 0), (9, 9), (8, 17), (17, 7), (1, 8), (0, 1)] if not full else [(a, m) for a in L(8) for m in L(8)]
+            if be == "c32" and tier == "quick":
+                igrid = [(9, 9)]          # ISAP on the bit-sliced layout costs ~260 s per shape (layout model inside 300 permutation stubs)
             for ad, m in igrid:
                 qs.append(dec_query("isap", alg, ad, m, be))
         for fam in ("aead", "siv", "isap"):
